@@ -7,7 +7,7 @@ git -C /repo worktree add --detach $WT HEAD >/dev/null 2>&1 || { echo "$PID work
 clean_rc=$(cd $SD && PYTHONPATH=/repo/src timeout 300 /venv/bin/python demo.py >/dev/null 2>&1; echo $?)
 if ! git -C $WT apply $SD/patch.diff 2>/tmp/seedtry_$PID.err; then echo "$PID PATCH-DOES-NOT-APPLY $(head -1 /tmp/seedtry_$PID.err)"; git -C /repo worktree remove --force $WT; exit 2; fi
 mut_rc=$(cd $SD && PYTHONPATH=$WT/src timeout 300 /venv/bin/python demo.py >/dev/null 2>&1; echo $?)
-out=$(cd /verif && VERIF_REPO=$WT VERIF_NPROC=${VERIF_NPROC:-8} ./check $PID --tier ${TIER:-quick} 2>&1); rc=$?
+out=$(cd /verif && VERIF_EVIDENCE_DIR=/tmp/seedtry_evidence VERIF_REPO=$WT VERIF_NPROC=${VERIF_NPROC:-8} ./check $PID --tier ${TIER:-quick} 2>&1); rc=$?
 echo "$out" > /tmp/seedtry_$PID.log
 git -C /repo worktree remove --force $WT
 echo "$PID demo_clean_rc=$clean_rc demo_mutant_rc=$mut_rc check_rc=$rc $(echo "$out" | grep -c VIOLATION) violations; $(echo "$out" | grep -m1 'tier=')"
